@@ -335,10 +335,10 @@ def havoc_for_loop(ex: Exec, names: set[str], st: ast.stmt | None = None, heap: 
 
     def ev(name, arr, evno=evno, modset=modset, alloc0=alloc0, targeted=targeted, coarse_maps=coarse_maps):
         for k, (oid, maps) in enumerate(targeted):
-            if name in maps:
+            if name in maps or ("*" in maps and name != "cls"):
                 fr = z3.Const(f"hv{evno}_t{k}_{name.replace(':', '_')}", S.heap_sort(name).range())
                 arr = z3.Store(arr, oid, fr)
-        if coarse_maps is not None and name not in coarse_maps:
+        if coarse_maps is not None and name not in coarse_maps and "*" not in coarse_maps:
             return arr
         if name == "cls" and coarse_maps is not None:
             return arr
@@ -391,8 +391,30 @@ def loop_writes(ex: Exec, st: ast.stmt) -> list[tuple[ast.expr | None, tuple[str
                     for c in cands:
                         m = c.clauses.get("modifies")
                         body = m.body if isinstance(m, ast.Lambda) else m
-                        if m is None or not (isinstance(body, (ast.List, ast.Tuple)) and not body.elts):
+                        if m is None or not isinstance(body, (ast.List, ast.Tuple)):
                             return None
+                        # translate the callee's frame to expressions of the call site:
+                        # a parameter name -> the argument passed for it (whole object),
+                        # field(self, "x") -> that field of the receiver
+                        params = [a.arg for a in m.args.args] if isinstance(m, ast.Lambda) else []
+                        for e in body.elts:
+                            if isinstance(e, ast.Name) and e.id in params:
+                                k = params.index(e.id)
+                                if k == 0:
+                                    out.append((f.value, ("*",)))
+                                elif k - 1 < len(n.args) and not any(isinstance(a, ast.Starred) for a in n.args):
+                                    out.append((n.args[k - 1], ("*",)))
+                                else:
+                                    kw = [x.value for x in n.keywords if x.arg == e.id]
+                                    if not kw:
+                                        return None
+                                    out.append((kw[0], ("*",)))
+                            elif (isinstance(e, ast.Call) and isinstance(e.func, ast.Name) and e.func.id == "field"
+                                  and len(e.args) == 2 and isinstance(e.args[0], ast.Name) and e.args[0].id == params[0]
+                                  and isinstance(e.args[1], ast.Constant)):
+                                out.append((f.value, ("fld:" + str(e.args[1].value),)))
+                            else:
+                                return None
                     continue
                 if name in _MUTATING:
                     out.append((f.value, cont))
@@ -507,6 +529,9 @@ def exec_for(ex: Exec, st: ast.For) -> None:
         i = ex.fresh("i", S.INT)
         ex.assume(z3.And(0 <= i, i < n))
         inv_at(i, "", False)
+        if getattr(ex, "_elt_def", False) and it.seq is not None:
+            # ground instance of elt's definition at the element this iteration visits
+            ex.assume(S.elt_link(it.seq, i))
         _bind_target(ex, st.target, it.get(i))
         saved_counter = ex.loop_counter
         try:
